@@ -2,6 +2,8 @@
 #include "../c02.hpp"
 #include "../c06based.hpp"
 #include "../c05.hpp"
+#define VP_C03_NO_MAIN
+#include "C03.cpp"
 
 using vp::based::run_c06_based;
 
@@ -10,6 +12,11 @@ struct Prop {
 	static constexpr char const* id = "C19";
 	static constexpr int H = 13, R = 4, MAXOPS = 10;
 	static void run(vp::Input const& in, vp::Ctx& ctx) {
+		if((in.head(12) % 11U) == 10) {  // standard algorithms on rows / elements of re-based views (the C03 program; its own header bytes 13, 14 are read as zero here)
+			ctx.desc << "[C03-program] ";
+			switch(in.head(1) % 3) { case 0: c03::run_d<1, vp::CfgBased>(in, ctx); break; case 1: c03::run_d<2, vp::CfgBased>(in, ctx); break; default: c03::run_d<3, vp::CfgBased>(in, ctx); break; }
+			ctx.label("program_C03"); return;
+		}
 		if((in.head(12) % 5U) == 4) { ctx.desc << "[C05-program] "; vp::c05::run_c05<vp::CfgBased>(in, ctx); ctx.label("program_C05"); return; }
 		if((in.head(12) % 4U) == 3) { ctx.desc << "[C06-program] "; if((in.head(1) & 1U) != 0) { run_c06_based<2>(in, ctx); } else { run_c06_based<1>(in, ctx); } return; }
 		if((in.head(12) & 1U) == 0) { ctx.desc << "[C01-program] "; vp::run_c01<vp::CfgBased>(in, ctx); ctx.label("program_C01"); }
